@@ -844,8 +844,11 @@ def remap_by_types(
 
         def visit_UnaryOp(self, node: ast.UnaryOp) -> Any:
             t_node = self.generic_visit(node)
-            self._found_types[node] = self.lookup_type(node.operand)
-            self._found_types[t_node] = self.lookup_type(node.operand)
+            t_operand = self.lookup_type(node.operand)
+            # `not x` is a bool whatever `x` is; `-x`, `+x` and `~x` keep the operand's type
+            t_result = bool if isinstance(node.op, ast.Not) else t_operand
+            self._found_types[node] = t_result
+            self._found_types[t_node] = t_result
             return t_node
 
         def visit_BinOp(self, node: ast.BinOp) -> Any:
